@@ -35,7 +35,7 @@ type option struct {
 	field   string
 	kind    kind
 	get     func(c *core.Configuration) any // string | *string (nil = absent) | []string | *[]string
-	def     any                            // documented default (independent of the extractor: written from docs/config.html)
+	def     any                             // documented default (independent of the extractor: written from docs/config.html)
 	numeric bool
 }
 
